@@ -127,4 +127,6 @@ def _post(chk, cases, bad, extra):
 def main(tier, replay=None):  # noqa: F811
     if replay:
         return inst_check.replay("C04", replay, 16)
-    return inst_check.run("C04", tier, 16, GENS, 450, 7000, ASSUMPTIONS, post=_post)
+    import inst_gen as ig
+    return inst_check.run("C04", tier, 16, GENS, 450, 7000, ASSUMPTIONS, post=_post,
+                          aimed=lambda rng, t: ig.element_cases(rng, 500 if t == "quick" else 8000))
